@@ -274,10 +274,14 @@ func Check(env *core.Env, rep *core.Report) *core.Result {
 	if thorough {
 		nBin = 600
 	}
-	composeInfo := ComposeCheck(env, rep, nBin, "n2", "nest3", "+n3")
+	composeInfo := ComposeCheck(env, rep, nBin, "n2", "nest3", "nest3_pinned", "+n3")
 	if a, ok := composeInfo["accepted"].(int); ok {
 		validated += a
 	}
+
+	// a pipeline included by several stages at once: concurrent nested Schedule calls over one graph
+	doubleInc := DoubleInclusion(env, rep, map[bool]int{false: 2500, true: 40000}[thorough])
+	validated += doubleInc
 
 	// nested pipelines built from configuration files, through the binary
 	nestedBin := NestedBinCheck(env, rep, map[bool]int{false: 24, true: 400}[thorough])
@@ -303,6 +307,7 @@ func Check(env *core.Env, rep *core.Report) *core.Result {
 		"real_runner_barrier_pipelines":           realBarrierRuns,
 		"whole_binary_traces_against_Taskctl_tla": composeInfo,
 		"nested_pipelines_through_the_binary":     nestedBin,
+		"doubly_included_pipeline_runs":           doubleInc,
 		"samples":                                 samples.List(),
 		"checker_cmds":                            cmds,
 		"exhaustive":                              true,
